@@ -11,6 +11,10 @@ import (
 )
 
 func main() {
+	if len(os.Args) > 1 && os.Args[1] == "walshort" {
+		walShortChild(os.Args[2:])
+		return
+	}
 	prop := flag.String("prop", "", "property id")
 	flag.String("replay", "", "replay file")
 	flag.Parse()
